@@ -1349,8 +1349,29 @@ func (c *Ctx) execDefer(x *ast.DeferStmt, s *State) {
 	if lit, ok := x.Call.Fun.(*ast.FuncLit); ok {
 		d.fn = FuncV{Lit: lit}
 	}
-	for _, a := range x.Call.Args {
-		d.args = append(d.args, c.eval(a, s))
+	dsig, _ := c.typeOf(x.Call.Fun).Underlying().(*types.Signature)
+	for i, a := range x.Call.Args {
+		v := c.eval(a, s)
+		// arguments are converted to the parameter types now (e.g. a struct value into an interface), as for a direct call
+		if dsig != nil && d.fn == nil && !x.Call.Ellipsis.IsValid() {
+			var pt types.Type
+			if dsig.Variadic() && i >= dsig.Params().Len()-1 {
+				pt = dsig.Params().At(dsig.Params().Len() - 1).Type().(*types.Slice).Elem()
+			} else if i < dsig.Params().Len() {
+				pt = dsig.Params().At(i).Type()
+			}
+			if pt != nil {
+				if _, isTup := c.info().TypeOf(a).(*types.Tuple); !isTup {
+					v = c.convertTo(s, v, c.typeOf(a), pt, a)
+				}
+			}
+		}
+		d.args = append(d.args, v)
+	}
+	if se, ok := unparen(x.Call.Fun).(*ast.SelectorExpr); ok {
+		if sel, ok := c.info().Selections[se]; ok && sel.Kind() == types.MethodVal {
+			d.recv = c.eval(se.X, s)
+		}
 	}
 	s.defers = append(s.defers, d)
 }
@@ -1372,7 +1393,9 @@ func (c *Ctx) runDefers(s *State) {
 		if fv, ok := d.fn.(FuncV); ok && fv.Lit != nil {
 			c.inlineLit(fv.Lit, d.args, run, d.call)
 		} else {
+			c.deferRecv = d.recv
 			c.evalCallWithArgs(d.call, run, d.args)
+			c.deferRecv = nil
 		}
 		if skip != nil {
 			m := c.mergeStates([]*State{run, skip})
